@@ -67,6 +67,13 @@ def indx_cases(draw, max_entries=40, max_rowids=50):
             coords[0] = tuple(first)
     rl = rowid_lists(max_rowids)
     rowids = draw(st.lists(rl, min_size=len(coords), max_size=len(coords)))
+    if coords and draw(st.integers(0, 5)) == 0:
+        # one long entry (writers may treat long arrays differently from short ones)
+        k = draw(st.integers(0, len(coords) - 1))
+        n = draw(st.sampled_from([255, 256, 257, 1000, 4100]))
+        start = draw(st.sampled_from([0, 3, 2 ** 31 - 100, TOP32 - 3 * 4100]))
+        step = draw(st.integers(1, 3))
+        rowids[k] = list(range(start, start + step * n, step))
     return {"common": common, "arity": arity,
             "entries": [[list(c), r] for c, r in zip(coords, rowids)],
             "layout": draw(st.sampled_from(["plain", "plain", "plain", "strided", "readonly", "reversed_keys"]))}
